@@ -31,9 +31,6 @@ CT = 'commands::test'
 EC = 'rules::eval_context'
 
 UNITS = {
-    'U-parse-string': dict(functions='parser::parse_string / parse_string_inner (nom)', cls='bounded stand-in (every string of <= 4 characters over {\", \\, a, e-acute, \'} after the opening quote)',
-                           quick=reg('rules::parser', ['k_parse_string_1', 'k_parse_string_2', 'k_parse_string_3']), thorough=reg('rules::parser', ['k_parse_string_4']),
-                           assumptions=[], timeout=900, mem_gb=8),
     'U-unary-special': dict(functions='eval::unary_operation, result-set branch (`%v empty` / filter emptiness); record_unary_clause stubbed (not on this path)',
                             cls='bounded (one value of kind Int / Null / UnResolved, empty selection); complete in operator-not x prefix-not',
                             quick=reg('rules::eval', ['k_unsp_empty_int', 'k_unsp_empty_unres', 'k_unsp_empty_nosel', 'k_unsp_empty_null']), thorough=[],
